@@ -675,12 +675,18 @@ func (cs *Contracts) scanSmtDecls(text string) {
 }
 
 func readSort(toks []string, j int) (string, int) {
+	if j >= len(toks) { // truncated solver output
+		return "", j
+	}
 	if toks[j] != "(" {
 		return toks[j], j + 1
 	}
 	depth := 0
 	var sb strings.Builder
 	for {
+		if j >= len(toks) {
+			break
+		}
 		t := toks[j]
 		if t == "(" {
 			depth++
